@@ -37,6 +37,9 @@ props=[
  {"id":"C07","level":"proof","funcs":SFLOW+PACKET,
   "assumptions":A_COMMON+["binary.Read intrinsic and ghost stream model as in C01","fmt.Sprintf of the MAC format and net.IP.String are specified by uninterpreted text functions (macText, ipText)","the whole-datagram statement (all samples in wire order) is the composition of the per-function and per-iteration contracts; the composition is a written argument"],
   "note":"Field-for-field contracts written from the sFlow v5 structure definitions and the RFC header layouts for every unmarshal/decode function of packages sflow and packet."},
+ {"id":"C05","level":"proof","funcs":IPFIX_JSON+V9_JSON+V5_JSON+WORKERS+["ipfix.Decoder.Decode","netflow.v9.Decoder.Decode","netflow.v5.Decoder.Decode"],"grounds":["jsonshape"],
+  "assumptions":A_COMMON+["the JSON recogniser inside govc (json.go) is the definition of 'syntactically valid JSON'; literal bare tokens (null) are not grammar-checked","strconv.FormatInt/FormatUint/FormatBool produce a JSON number/literal whose value is the argument, strconv.FormatFloat produces a JSON number for finite values, net.IP.String / net.HardwareAddr.String / hex.EncodeToString produce JSON-safe text, json.Marshal of a string yields a complete, correctly escaped string literal (assumed library contracts)","sFlow: encoding/json.Marshal returns valid JSON or an error (trusted); the check on our side is that every struct type reachable from the datagram is encodable (ground obligations)","faithfulness is decided per slot (the value written under each literal key, and the V value per dynamic type); numbers are compared as mathematical integers through numval"],
+  "note":"Ghost pushdown JSON recogniser state on every bytes.Buffer: each literal write is run through the recogniser character by character and must be legal (json.legal), each dynamic write must be a number / JSON-safe string content / complete string literal in the right position (json.payload), the value written under each literal key must equal the decoded field (json.slot), and JSONMarshal must end in the document-complete state."},
  {"id":"C18","level":"proof","funcs":["sflow.SFDecoder.*","sflow.NewSFDecoder","vflow.SFlow.sFlowWorker"],
   "assumptions":A_COMMON+["the relational reading (same output as without the filter) is a written lemma over the per-iteration contract of SFDecode"],
   "note":"isFilterMatch is proved to be membership in the filter list; SFDecode's loop skips a matching sample by its declared length and treats every other sample without consulting the filter."},
